@@ -75,21 +75,21 @@ contract("buidl.bech32.cbor_decode#accepts", props=("C20",), params={"data": ("b
 # ------------------------------------------------------------------------------------------- 8 <-> 5 bit regrouping
 for _n in (1, 2, 5, 20):
     contract("buidl.bech32.convertbits#8to5-len%d" % _n, props=("C20",),
-             params={"data": "bytes:%d" % _n, "frombits": ("const", 8), "tobits": ("const", 5)}, bv=64,
+             params={"data": "bytes:%d" % _n, "frombits": ("const", 8), "tobits": ("const", 5)}, bv=64, timeout_ms=30000,
              ensures=["returns()", "result == spec.text.regroup(data, 8, 5, True)"])
 _V8 = {"v%d" % i: V5 for i in range(8)}
-contract(HT + "cb58_8", props=("C20",), params=_V8, bv=64,
+contract(HT + "cb58_8", props=("C20",), params=_V8, bv=64, timeout_ms=30000,
          ensures=["returns()", "result == spec.text.regroup([v0, v1, v2, v3, v4, v5, v6, v7], 5, 8, False)"],
          gen=lambda rng, tier: ({"v%d" % i: rng.randrange(32) for i in range(8)} for _ in range(10**6)))
-contract(HT + "cb58_4", props=("C20",), params={"v%d" % i: V5 for i in range(4)}, bv=64,
+contract(HT + "cb58_4", props=("C20",), params={"v%d" % i: V5 for i in range(4)}, bv=64, timeout_ms=30000,
          ensures=["returns()", "result == spec.text.regroup([v0, v1, v2, v3], 5, 8, False)",
                   "(result is None) == (v3 % 16 != 0)"],           # 4 padding bits: must be zero
          gen=lambda rng, tier: ({"v%d" % i: rng.randrange(32) for i in range(4)} for _ in range(10**6)))
-contract(HT + "cb58_2", props=("C20",), params={"v0": V5, "v1": V5}, bv=64,
+contract(HT + "cb58_2", props=("C20",), params={"v0": V5, "v1": V5}, bv=64, timeout_ms=30000,
          ensures=["returns()", "result == spec.text.regroup([v0, v1], 5, 8, False)", "(result is None) == (v1 % 4 != 0)"],
          gen=lambda rng, tier: ({"v0": rng.randrange(32), "v1": rng.randrange(32)} for _ in range(10**6)))
 for _n in (1, 2, 5):
-    contract(HB + "cb_rt#len%d" % _n, props=("C20",), params={"d": "bytes:%d" % _n}, bv=64,
+    contract(HB + "cb_rt#len%d" % _n, props=("C20",), params={"d": "bytes:%d" % _n}, bv=64, timeout_ms=30000,
              ensures=["returns()", "result is not None", "bytes(result) == d"])
 
 
